@@ -10,7 +10,9 @@ use serde_json::Value;
 use truc::record::definition::builder::generic::{variant as gvariant, GenericRecordDefinitionBuilder};
 use truc::record::definition::builder::native::{variant, DatumDefinitionOverride, NativeRecordDefinitionBuilder};
 use truc::record::definition::{DatumId, NativeDatumDetails, RecordDefinition, RecordVariantId};
-use truc::record::type_resolver::HostTypeResolver;
+use truc::record::definition::convert::convert_record_definition;
+use truc::record::definition::DatumDefinition;
+use truc::record::type_resolver::{DynamicTypeInfo, HostTypeResolver, TypeInfo, TypeResolver};
 
 type B = NativeRecordDefinitionBuilder<HostTypeResolver>;
 
@@ -21,7 +23,7 @@ fn add(b: &mut B, name: &str, size: u64, align: u64) -> Result<DatumId, String> 
     )
 }
 
-fn close(b: &mut B, strategy: &str) -> RecordVariantId {
+fn close<R: TypeResolver>(b: &mut NativeRecordDefinitionBuilder<R>, strategy: &str) -> RecordVariantId {
     match strategy {
         "simple" => b.close_record_variant_with(variant::simple),
         "basic" => b.close_record_variant_with(variant::basic),
@@ -241,6 +243,231 @@ fn replay_requests<T: Bld>(b: &mut T, sc: &Value, fails: &mut Vec<String>) {
     }
 }
 
+/// C18 replay: a resolver whose answers differ from the host's.
+struct FakeResolver {
+    name: std::cell::RefCell<String>,
+    size: std::cell::Cell<usize>,
+    align: std::cell::Cell<usize>,
+    uninit: std::cell::Cell<bool>,
+}
+impl TypeResolver for FakeResolver {
+    fn type_info<T>(&self) -> TypeInfo {
+        TypeInfo { name: self.name.borrow().clone(), size: self.size.get(), align: self.align.get() }
+    }
+    fn dynamic_type_info(&self, _type_name: &str) -> DynamicTypeInfo {
+        DynamicTypeInfo { info: self.type_info::<()>(), allow_uninit: self.uninit.get() }
+    }
+}
+
+fn replay_resolver(sc: &Value) -> usize {
+    let mut fails = 0;
+    let res = FakeResolver { name: Default::default(), size: Default::default(), align: Default::default(), uninit: Default::default() };
+    let mut b = NativeRecordDefinitionBuilder::new(&res);
+    let mut expected: Vec<(String, usize, usize, bool)> = Vec::new();
+    for (i, it) in sc["items"].as_array().cloned().unwrap_or_default().iter().enumerate() {
+        let (rs, ra) = (u(it, "rs") as usize, u(it, "ra").max(1) as usize);
+        *res.name.borrow_mut() = format!("R{}", i);
+        res.size.set(rs);
+        res.align.set(ra);
+        let un = it["uninit"].as_bool().unwrap_or(false);
+        res.uninit.set(un);
+        let name = format!("f{}", i);
+        // T = [u64; 5]: the host's own answer would be 40 / 8, never what the fake resolver says
+        let r = match it["entry"].as_str().unwrap_or("") {
+            "add_datum" => {
+                expected.push((format!("R{}", i), rs, ra, false));
+                b.add_datum::<[u64; 5], _>(name)
+            }
+            "add_datum_allow_uninit" => {
+                expected.push((format!("R{}", i), rs, ra, true));
+                b.add_datum_allow_uninit::<[u64; 5], _>(name)
+            }
+            "add_datum_override" => {
+                let on = it["ov_name"].as_bool().unwrap_or(false);
+                let os = it["ov_size"].as_bool().unwrap_or(false);
+                let oa = it["ov_align"].as_bool().unwrap_or(false);
+                let ou = u(it, "ov_uninit");
+                expected.push((
+                    if on { format!("O{}", i) } else { format!("R{}", i) },
+                    if os { u(it, "os") as usize } else { rs },
+                    if oa { u(it, "oa").max(1) as usize } else { ra },
+                    ou == 2,
+                ));
+                b.add_datum_override::<[u64; 5], _>(
+                    name,
+                    DatumDefinitionOverride {
+                        type_name: if on { Some(format!("O{}", i)) } else { None },
+                        size: if os { Some(u(it, "os") as usize) } else { None },
+                        align: if oa { Some(u(it, "oa").max(1) as usize) } else { None },
+                        allow_uninit: if ou == 0 { None } else { Some(ou == 2) },
+                    },
+                )
+            }
+            "add_dynamic_datum" => {
+                expected.push((format!("R{}", i), rs, ra, un));
+                b.add_dynamic_datum(name, "dyn")
+            }
+            _ => {
+                expected.push((format!("R{}", i), rs, ra, un));
+                let proto = DatumDefinition::new(
+                    DatumId::from(99),
+                    name,
+                    NativeDatumDetails::new(17, TypeInfo { name: format!("R{}", i), size: rs, align: ra }, un),
+                );
+                b.copy_datum(&proto)
+            }
+        };
+        if r.is_err() {
+            println!("FAIL: C18: entry point {} rejected a fresh datum", it["entry"]);
+            fails += 1;
+        }
+    }
+    close(&mut b, sc["strategy"].as_str().unwrap_or("simple"));
+    for (i, ex) in expected.iter().enumerate() {
+        let d = &b[DatumId::from(i)];
+        let ti = d.details().type_info();
+        println!("  datum {}: stored {} {}/{} uninit {} offset {}", i, ti.name, ti.size, ti.align, d.details().allow_uninit(), d.details().offset());
+        if ti.name != ex.0 || ti.size != ex.1 || ti.align != ex.2 {
+            println!("FAIL: C18: stored type information of datum {} is {} {}/{}, the resolver / override said {} {}/{}", i, ti.name, ti.size, ti.align, ex.0, ex.1, ex.2);
+            fails += 1;
+        }
+        if d.details().allow_uninit() != ex.3 {
+            println!("FAIL: C18: stored may-be-uninitialised flag of datum {} is wrong", i);
+            fails += 1;
+        }
+        if ex.2 > 0 && d.details().offset() % ex.2 != 0 {
+            println!("FAIL: C18: offset of datum {} does not follow the resolver's alignment", i);
+            fails += 1;
+        }
+    }
+    fails
+}
+
+/// C20 replay.
+fn replay_conv(sc: &Value) -> usize {
+    let mut fails = 0;
+    let shapes = [(4u64, 4u64), (0, 1), (3, 1), (16, 16), (12, 4), (1, 1)];
+    let mut src = NativeRecordDefinitionBuilder::new(HostTypeResolver);
+    let mut n = 0usize;
+    for st in sc["steps"].as_array().cloned().unwrap_or_default() {
+        for r in st["rm"].as_array().cloned().unwrap_or_default() {
+            let _ = src.remove_datum(DatumId::from(r.as_u64().unwrap() as usize));
+        }
+        for a in st["add"].as_array().cloned().unwrap_or_default() {
+            let (s, al) = shapes[n % 6];
+            let reuse = a["reuse"].as_bool().unwrap_or(false) && n > 0;
+            let nm = if reuse { "f0".to_string() } else { format!("f{}", n) };
+            if add(&mut src, &nm, s, al).is_err() {
+                add(&mut src, &format!("f{}", n), s, al).expect("source add");
+            }
+            n += 1;
+        }
+        close(&mut src, st["strategy"].as_str().unwrap_or("simple"));
+    }
+    let sdef = src.build();
+    println!("source:\n{}", sdef);
+    let target = sc["target"].as_str().unwrap_or("simple").to_string();
+    let mapping: std::cell::RefCell<BTreeMap<DatumId, Vec<DatumId>>> = Default::default();
+    let (res, tvariants, tdata): (Result<BTreeMap<RecordVariantId, RecordVariantId>, String>, Vec<Vec<DatumId>>, BTreeMap<DatumId, (String, TypeInfo, bool)>);
+    if target == "generic" {
+        let mut tb = GenericRecordDefinitionBuilder::<NativeDatumDetails>::new();
+        res = convert_record_definition(
+            &sdef,
+            |t: &mut GenericRecordDefinitionBuilder<NativeDatumDetails>, d: &DatumDefinition<NativeDatumDetails>| {
+                let r = t.add_datum(d.name(), NativeDatumDetails::new(usize::MAX, d.details().type_info().clone(), d.details().allow_uninit()));
+                if let Ok(id) = &r {
+                    mapping.borrow_mut().entry(d.id()).or_default().push(*id);
+                }
+                r
+            },
+            |t, id| t.remove_datum(id),
+            |t| t.close_record_variant_with(gvariant::append_data),
+            &mut tb,
+        );
+        let def = tb.build();
+        tvariants = def.variants().map(|v| v.data().collect()).collect();
+        tdata = def.datum_definitions().map(|d| (d.id(), (d.name().to_string(), d.details().type_info().clone(), d.details().allow_uninit()))).collect();
+    } else {
+        let mut tb = NativeRecordDefinitionBuilder::new(HostTypeResolver);
+        let strat = target.clone();
+        res = convert_record_definition(
+            &sdef,
+            |t: &mut B, d: &DatumDefinition<NativeDatumDetails>| {
+                let r = t.copy_datum(d);
+                if let Ok(id) = &r {
+                    mapping.borrow_mut().entry(d.id()).or_default().push(*id);
+                }
+                r
+            },
+            |t, id| t.remove_datum(id),
+            |t| close(t, &strat),
+            &mut tb,
+        );
+        let def = tb.build();
+        tvariants = def.variants().map(|v| v.data().collect()).collect();
+        tdata = def.datum_definitions().map(|d| (d.id(), (d.name().to_string(), d.details().type_info().clone(), d.details().allow_uninit()))).collect();
+    }
+    let mut fail = |s: String| {
+        println!("FAIL: {}", s);
+        fails += 1;
+    };
+    let map = match res {
+        Ok(m) => m,
+        Err(e) => {
+            fail(format!("C20: replaying an accepted definition into a fresh builder failed: {}", e));
+            return fails;
+        }
+    };
+    let svars: Vec<_> = sdef.variants().collect();
+    if map.len() != svars.len() || tvariants.len() != svars.len() {
+        fail(format!("C20: {} source variants, {} map entries, {} target variants", svars.len(), map.len(), tvariants.len()));
+    }
+    let mapping = mapping.borrow();
+    for (sid, tids) in mapping.iter() {
+        if tids.len() != 1 {
+            fail(format!("C20: source datum {} was added {} times to the target", sid, tids.len()));
+        }
+    }
+    for sv in &svars {
+        let tv = match map.get(&sv.id()) {
+            Some(t) => *t,
+            None => {
+                fail(format!("C20: source variant {} is missing from the returned map", sv.id()));
+                continue;
+            }
+        };
+        let tvi: usize = format!("{}", tv).parse().unwrap();
+        if tvi >= tvariants.len() {
+            fail("C20: map points to a target variant that does not exist".to_string());
+            continue;
+        }
+        let mut want: Vec<DatumId> = sv.data().filter_map(|d| mapping.get(&d).map(|v| v[0])).collect();
+        want.sort();
+        let mut got = tvariants[tvi].clone();
+        got.sort();
+        if want != got || want.len() != sv.data_len() {
+            fail(format!("C20: target variant {} does not hold exactly the images of the data of source variant {}", tv, sv.id()));
+        }
+        for d in sv.data() {
+            if let Some(t) = mapping.get(&d).map(|v| v[0]) {
+                let sd = &sdef[d];
+                if let Some((tn, tti, tun)) = tdata.get(&t) {
+                    if tn != sd.name() {
+                        fail(format!("C20: name of datum {} changed in the replay", d));
+                    }
+                    if tti != sd.details().type_info() {
+                        fail(format!("C20: type information of datum {} changed in the replay", d));
+                    }
+                    if *tun != sd.details().allow_uninit() {
+                        fail(format!("C20: may-be-uninitialised flag of datum {} changed in the replay", d));
+                    }
+                }
+            }
+        }
+    }
+    fails
+}
+
 fn u(v: &Value, k: &str) -> u64 {
     v.get(k).and_then(|x| x.as_u64()).unwrap_or(0)
 }
@@ -253,6 +480,18 @@ fn main() {
     let mut obs = Obs { fails: Vec::new(), first_offsets: BTreeMap::new() };
     let mut b = NativeRecordDefinitionBuilder::new(HostTypeResolver);
     let kind = sc.get("kind").and_then(|k| k.as_str()).unwrap_or("hist");
+    if kind == "resolver" || kind == "conv" {
+        let r = catch_unwind(AssertUnwindSafe(|| if kind == "conv" { replay_conv(&sc) } else { replay_resolver(&sc) }));
+        let n = match r {
+            Ok(n) => n,
+            Err(_) => {
+                println!("FAIL: {}: the code under test panicked while replaying the scenario", if kind == "conv" { "C20" } else { "C18" });
+                1
+            }
+        };
+        println!("REPLAY-DONE fails={}", n);
+        return;
+    }
     if kind == "req" {
         let mut fails = Vec::new();
         let build_ok = if sc["builder"].as_str() == Some("generic") {
